@@ -675,10 +675,10 @@ func verifC07Method() string {
 //	          group) children, Widget (named group) for the cluster parent with
 //	          namespaced children; hook order = reverse of the claim order.
 //	thorough: "wide": the same size with every check shape (none, type,
-//	          type+status, type+reason, all), condition list optional, both
-//	          child kinds for the namespaced parent;
+//	          type+status, type+reason, all) and an optional condition list;
 //	          "deep": 3 children, latest + 2 old revisions, cluster-scoped
-//	          parent and children, check none | type+status, both hook orders.
+//	          parent and children, RollingRecreate without status checks
+//	          (health = observed and up to date), both hook orders.
 func verifRollTierOpts(o *verifRollOpts) {
 	if rt.Tier() == 0 {
 		o.scope = rt.Choice("scope", 3)
@@ -689,20 +689,17 @@ func verifRollTierOpts(o *verifRollOpts) {
 		o.reversed = true
 		return
 	}
-	if false {
+	if rt.Choice("size", 2) == 0 {
 		o.scope = rt.Choice("scope", 3)
 		o.method = verifC07Method()
 		o.n, o.nOld = 2, 1
 		o.named = o.scope == verifScopeClusterNS
-		if o.scope == verifScopeNS {
-			o.named = verifC07Bool("named-group")
-		}
 		o.chk = rt.Choice("check", 5)
 		o.reversed = true
 		return
 	}
 	o.scope = verifScopeCluster
-	o.method = verifC07Method()
+	o.method = verifRollingRecreate
 	o.n, o.nOld = 3, 2
 	o.chk = 0
 	o.reversed = verifC07Bool("hook-order-reversed")
